@@ -14,6 +14,7 @@ import (
 )
 
 type encCase struct {
+	line string // the ENC line of this record as sent to the model
 	format  string
 	lvl     int
 	ts      time.Time
@@ -116,7 +117,8 @@ func encRun(r *run, prop string, c *encCase) {
 	}
 	line := fmt.Sprintf("ENC %s %d %s %s %s %s %d %d %s", c.format, c.lvl, hxs(c.tsText), hxs(c.name), hxs(c.msg), callerTok, c.tagW, c.minW,
 		strings.Join(attrsTokens(c.attrs), " "))
-	r.emit(strings.TrimRight(line, " "), obs)
+	c.line = strings.TrimRight(line, " ")
+	r.emit(c.line, obs)
 }
 
 // chattyW logs a record of its own from inside Write.
